@@ -192,6 +192,8 @@ class Peer:
                 'send-update': 0,
                 'receive-refresh': 0,
                 'send-refresh': 0,
+                'receive-operational': 0,
+                'send-operational': 0,
                 'receive-keepalive': 0,
                 'send-keepalive': 0,
                 'receive-prefixes': 0,
@@ -241,6 +243,8 @@ class Peer:
                 'send-update': 0,
                 'receive-refresh': 0,
                 'send-refresh': 0,
+                'receive-operational': 0,
+                'send-operational': 0,
                 'receive-keepalive': 0,
                 'send-keepalive': 0,
                 'receive-prefixes': 0,
@@ -311,6 +315,8 @@ class Peer:
                 'send-update': 0,
                 'receive-refresh': 0,
                 'send-refresh': 0,
+                'receive-operational': 0,
+                'send-operational': 0,
                 'receive-keepalive': 0,
                 'send-keepalive': 0,
             },
